@@ -5,7 +5,7 @@ from __future__ import annotations
 import ast
 from typing import Any, Dict, List, Optional
 
-from ..loader import AnalysisError, ancestors, loc, short, unparse
+from ..loader import AnalysisError, ancestors, loc, parent, short, unparse
 from ..norm import Ctx, mk_add, show, subterms, tkey
 from ..report import Report
 from ..rp2model import model
@@ -67,6 +67,13 @@ def run(rep: Report, tier: str) -> None:
         key = f"{tv}.timestamp.year"
         explicit = [unparse(ast.parse(f"if {key} not in {dname}:\n    {dname}[{key}] = []").body[0]), f"{dname}[{key}].append({tv})"]  # the same grouping with an explicit membership test
         ok = body == [f"{dname}.setdefault({key}, []).append({tv})"] or body == explicit
+        # a key obtained through a method (a country / configuration hook): if any implementation of that method converts the instant to another zone,
+        # the sheet's year differs from the year of the date shown in the row (definite: the conversion is the defect, wherever it lives)
+        for kc in [c for c in ast.walk(grp) if isinstance(c, ast.Call) and isinstance(c.func, ast.Attribute) and any(isinstance(a, ast.Attribute) and a.attr == "timestamp" for x in c.args for a in ast.walk(x))]:
+            impls = [f for f in prog.functions.values() if f.node.name == kc.func.attr and f.cls is not None]
+            conv = [(f, x) for f in impls for x in ast.walk(f.node) if isinstance(x, ast.Attribute) and x.attr in ("astimezone", "utctimetuple", "utcoffset")]
+            for f, x in conv[:2]:
+                rep.violation(ra, JP, ga.qualname, f"group key through {kc.func.attr}() converts the instant", f"the year a transaction is filed under comes from {short(kc, 70)}, and {f.qualname} ({f.module}) computes it from a converted instant ({short(parent(x) or x, 60)}): around New Year the sheet's year differs from the calendar year of the transaction's own timestamp (the date shown in its row), so the transaction lands in the wrong asset-year sheet", loc(kc), definite=True)
         rep.check(ok, ra, JP, ga.qualname, "group key = the transaction's own timestamp.year, in a dictionary (one group per year)", f"the grouping loop body is {body}; expected {dname}.setdefault(<entry>.timestamp.year, []).append(<entry>)", loc(grp))
         rep.check(not any(isinstance(n, (ast.Continue, ast.Break)) or (isinstance(n, ast.If) and body != explicit) for n in ast.walk(grp)), ra, JP, ga.qualname, "every transaction of the window joins its year group", "the grouping loop skips some transactions", loc(grp))
     # the per-year loop iterates that dictionary's items
@@ -129,6 +136,14 @@ def run(rep: Report, tier: str) -> None:
 
     check_rows_fresh(rep, ra, norm, gy, row_loop, "JP year sheet rows")
 
+    # groups built anywhere on the way (a helper on the entry sets, the generator itself) must not rely on itertools.groupby over input in another order
+    from ..groupby import check_groupby
+
+    rg_ = rep.rule("C20.f", "no order-sensitive grouping on the way to the year sheets: itertools.groupby only over input sorted by the grouping key", floor=0)
+    n_gb = check_groupby(rep, rg_, prog, (JP, "rp2.abstract_entry_set", "rp2.transaction_set", "rp2.gain_loss_set", "rp2.computed_data", "rp2.input_data"), "a calendar year met in two separate runs (mixed UTC offsets around New Year) keeps only one run: transactions vanish from their year sheet")
+    if n_gb == 0:
+        rep.ok(rg_, "no itertools.groupby call in the JP writer, the entry sets, ComputedData or InputData")
+
     # ---------------------------------------------------------------- C20.b
     rb = rep.rule("C20.b", "year groups are processed in ascending year order", floor=1)
     ordered = isinstance(it2, ast.Call) and isinstance(it2.func, ast.Name) and it2.func.id == "sorted" and len(it2.args) == 1 and unparse(it2.args[0]) in ((f"{dname}.items()",) if not by_key else (dname, f"{dname}.keys()")) and not any(k.arg == "reverse" for k in it2.keywords) and not [k for k in it2.keywords if k.arg == "key" and "[0]" not in unparse(k.value)]
@@ -158,6 +173,20 @@ def run(rep: Report, tier: str) -> None:
     for n in arith:
         rep.violation(rc, JP, gy.qualname, f"previous sheet named by arithmetic: {short(n, 80)}", f"{short(n, 80)}: the previous year's sheet is named by arithmetic on the current year; when a year has no transactions (or years are not consecutive) that sheet does not exist — the opening balance must refer to the most recent earlier year that has a sheet", loc(n))
     # (the opening-balance cells themselves are decided on the writer's trace, see _writer_trace)
+    # a sheet name is spelled in one place only: anything in the generator that assembles "<x>_<y>" by hand (f"{asset}_{year}", "{}_{}".format(..)) outside
+    # the two name builders bypasses the translated pattern the sheets were created under (definite: the construct itself is the defect)
+    builders = {id(n) for b in ("get_tax_sheet_name", "get_summary_sheet_name") if b in gen.methods for n in ast.walk(gen.methods[b].node)}
+    for node in ast.walk(gen.node):
+        if id(node) in builders:
+            continue
+        by_hand = None
+        if isinstance(node, ast.JoinedStr) and len(node.values) == 3 and isinstance(node.values[0], ast.FormattedValue) and isinstance(node.values[2], ast.FormattedValue) and isinstance(node.values[1], ast.Constant) and node.values[1].value == "_" and unparse(node.values[0].value) == "asset":
+            by_hand = node  # "<asset>_<something>": the shape of an asset-year sheet name
+        elif isinstance(node, ast.Call) and isinstance(node.func, ast.Attribute) and node.func.attr == "format" and isinstance(node.func.value, ast.Constant) and node.func.value.value in ("{}_{}", "{}_Summary"):
+            by_hand = node
+        if by_hand is not None:
+            fn = next((a for a in ancestors(by_hand) if isinstance(a, ast.FunctionDef)), None)
+            rep.violation(rc, JP, f"Generator.{fn.name}" if fn is not None else "Generator", f"sheet name assembled by hand: {short(by_hand, 60)}", f"{short(by_hand, 80)} spells a sheet name without get_tax_sheet_name / get_summary_sheet_name: with a translated name pattern (e.g. -g kl: '__test_{{}}_{{}}') a reference built from it points at a sheet that does not exist", loc(by_hand), definite=True)
     # every cross-sheet reference in a formula goes through a name variable produced by the name builder
     for node in ast.walk(gy.node):
         if isinstance(node, ast.JoinedStr) and any(isinstance(v, ast.Constant) and "='" in str(v.value) for v in node.values):
